@@ -174,6 +174,18 @@ func (c *Ctx) Violate(sig, what string, files map[string]string) {
 	c.mu.Unlock()
 }
 
+// noteMore counts further reproduced violations of an already reported signature.
+func (c *Ctx) noteMore(sig string) {
+	c.mu.Lock()
+	defer c.mu.Unlock()
+	m, _ := c.Ev.Coverage["more_violations_by_signature"].(map[string]int)
+	if m == nil {
+		m = map[string]int{}
+	}
+	m[sig]++
+	c.Ev.Coverage["more_violations_by_signature"] = m
+}
+
 func (c *Ctx) NumViolations() int {
 	c.mu.Lock()
 	defer c.mu.Unlock()
@@ -640,48 +652,73 @@ func (c *Ctx) JudgeAndReport(spec, cfg string, cases []map[string]any, shards in
 		byID[toInt(cs["id"])] = cs
 	}
 	c.Add("rejected_first_pass", len(failed))
-	const maxRepro = 40
-	seenSig := map[string]int{}
-	for n, id := range failed {
-		old := byID[id]
-		if old == nil {
-			c.Infra("judge returned unknown id %d", id)
-			continue
-		}
-		if n >= maxRepro {
-			// still classify without reproduction budget: reproduce lazily only for new signatures
-			sig, _ := sigOf(old)
-			if seenSig[sig] > 0 {
-				seenSig[sig]++
+	if len(failed) == 0 {
+		return
+	}
+	// re-execute (at most maxRepro of) the rejected cases and judge them again in one batch;
+	// cases that pass on re-execution are retried (schedule / map-order dependent failures)
+	const maxRepro = 120
+	pending := failed
+	if len(pending) > maxRepro {
+		c.Set("rejected_not_reexecuted", len(pending)-maxRepro)
+		pending = pending[:maxRepro]
+	}
+	confirmed := map[int]map[string]any{}
+	for round := 0; round < 5 && len(pending) > 0; round++ {
+		var batch []map[string]any
+		for _, id := range pending {
+			old := byID[id]
+			if old == nil {
+				c.Infra("judge returned unknown id %d", id)
 				continue
 			}
-		}
-		again := old
-		var f2 []int
-		ok2 := true
-		// schedule- or map-order-dependent failures: up to 5 re-executions
-		for try := 0; try < 5; try++ {
+			again := old
 			if rerun != nil {
 				again = rerun(old)
 			}
-			f2, ok2 = c.Judge(spec, cfg, []map[string]any{again}, 1)
-			if !ok2 || len(f2) > 0 || rerun == nil {
-				break
+			batch = append(batch, again)
+		}
+		f2, ok2 := c.Judge(spec, cfg, batch, shards)
+		if !ok2 {
+			return
+		}
+		rej := map[int]bool{}
+		for _, id := range f2 {
+			rej[id] = true
+		}
+		var next []int
+		for _, cs := range batch {
+			id := toInt(cs["id"])
+			if rej[id] {
+				confirmed[id] = cs
+			} else {
+				next = append(next, id)
 			}
 		}
-		if !ok2 {
-			continue
+		pending = next
+		if rerun == nil {
+			break
 		}
-		if len(f2) == 0 {
-			c.Infra("case %d rejected once but accepted on re-execution (not reproduced)", id)
-			continue
-		}
+	}
+	for _, id := range pending {
+		c.Infra("case %d rejected once but accepted on 5 re-executions (not reproduced)", id)
+	}
+	seenSig := map[string]int{}
+	var ids []int
+	for id := range confirmed {
+		ids = append(ids, id)
+	}
+	sort.Ints(ids)
+	for _, id := range ids {
+		again := confirmed[id]
 		again["why"] = c.Why[id]
 		sig, what := sigOf(again)
 		what = "rejected by " + spec + ": " + c.Why[id] + "\n" + what
 		seenSig[sig]++
 		if seenSig[sig] <= 3 {
 			c.Violate(sig, what, map[string]string{"case.json": JSON(again), "spec.txt": spec + " / " + cfg})
+		} else {
+			c.noteMore(sig)
 		}
 	}
 }
